@@ -3,9 +3,11 @@
 NAME=$1; TIER=${2:-quick}; D=/verif/seeded/$NAME
 P=$(python3 -c "import json;print(json.load(open('$D/meta.json'))['property'])")
 cd /verif
+cp evidence/$P.json /tmp/evidence_backup_$P.json 2>/dev/null
 git -C /repo apply $D/patch.diff || exit 2
 ./check $P --tier $TIER > /tmp/seedrun_$NAME.log 2>&1; RC=$?
 git -C /repo checkout -- .
+cp /tmp/evidence_backup_$P.json evidence/$P.json 2>/dev/null; rm -f /tmp/evidence_backup_$P.json
 grep -E "^VIOLATION|^KNOWN|^\[$P\]" /tmp/seedrun_$NAME.log | head -5
 echo "seed $NAME property $P tier $TIER: check exit=$RC ($( [ $RC -ne 0 ] && echo DETECTED || echo MISSED ))"
 python3 - <<PY
